@@ -73,6 +73,10 @@ CHECKS = {
    text="Symbols are produced by an independent Aztec encoder (internal/azref) from rapid-generated token walks over the five code tables, shifts, latches and binary shifts; every one of the 36 sizes is forced each run; decoding is checked at three observation points (high-level bits, matrix with detector result, rendered image in four rotations at scales 2..5) with damage up to the correction capacity.",
    note="Trusted: internal/azref (tables, stuffing, RS over own GF arithmetic, mode message, layout), validated by the unchanged tree decoding all sizes. One known finding (centre estimate of sparse symbols) is listed with a matcher that recomputes the library's own first-stage centre estimate.",
    tech="property-based testing with an independent reference encoder as symbol source"),
+ "C06": dict(cat="exploration", ref="DESIGN.md §4 C06",
+   text="Structured generators drive every image-level reader configuration, the three matrix decoders, the three bit-stream parsers and all row decoders with random, structured and mutated-valid inputs and rapid hint maps, under recover() and a watchdog; the oracle is totality: returns, result xor error, documented error kinds for image readers. Native coverage-guided fuzz targets for the parsers run in the thorough tier.",
+   note="Totality over generated inputs only; a deep parser state can be missed. Hint values are well-typed. Suspected hangs are re-run alone with a 120 s limit before being reported.",
+   tech="robustness property testing (rapid) + native go fuzzing with a totality oracle"),
 }
 
 NOT_YET = {}
